@@ -53,6 +53,7 @@ ids('C12 C02', {709: 'Set: stored/returned element object identity'})
 ids('C08', {801: 'size_hint does not bracket the number of items still to come', 802: 'set algebra: element multiplicity differs from the mathematical result',
             803: 'set algebra: number of yielded items', 804: 'yielded reference does not point into the left operand', 805: 'fold differs from stepping with next',
             806: 'count() differs from stepping', 807: 'is_subset', 808: 'is_superset', 809: 'is_disjoint', 810: 'operator - result'})
+ids('C08', {812: 'nth()/last()/min()/max() of a lazy set iterator differ from stepping'})
 ids('C08 C14', {811: 'operand modified'})
 ids('C14', {820: 'equality differs from extensional equality', 821: 'equality not symmetric', 822: 'equality not reflexive'})
 ids('C11', {711: '', 712: '', 713: '', 714: '', 715: '', 716: '', 720: ''})
@@ -129,6 +130,8 @@ fam('c08_union_fold c08_intersection_fold c08_difference_fold', 'g_alg', Q8, D8)
 # symmetric_difference chains two Difference iterators, each probing the other set: the (3,3) queries need 2-10 min -> thorough
 QS = [c for c in Q8 if c != (3, 3)]
 fam('c08_symdiff c08_symdiff_fold', 'g_alg', QS, [(3, 3), (4, 2), (2, 4)])
+# third parameter: 0 union, 1 intersection, 2 difference, 3 symmetric_difference
+fam('c08_provided', 'g_alg', [(2, 2, 0), (2, 2, 1), (2, 2, 2), (2, 2, 3), (1, 2, 0), (2, 1, 1), (2, 1, 2), (1, 2, 3)], [(3, 3, 0), (3, 3, 1), (3, 3, 2), (3, 2, 3)], unwind=lambda c: max(c[0], c[1]) + 2)
 fam('c08_sub', 'g_alg', Q8[:6], D8)
 fam('c08_difference_ref', 'g_alg', [(1, 1), (2, 2), (3, 2), (2, 3)], [(3, 3), (4, 2)], unwind=lambda c: 9)
 fam('c14_map c14_set', 'g_alg', Q8 + [(2, 3)], [(4, 4), (4, 1), (1, 4), (5, 5)])
@@ -208,7 +211,7 @@ PROPS = {
                      'c03_insert c03_insert_kv c03_or_insert c03_or_insert_with c03_or_insert_with_key c03_vacant_insert c03_or_default c03_set_insert c03_from_iter c03_set_extend '
                      'c18_insert_unchecked c11_or c11_variants c15_clone c16_from_iter c01_hist'),   # every state-changing path ends in well_formed()/observe()
     'C03': dict(fams=C03F + ' c03_replace_full c03_shapes'),
-    'C08': dict(fams='c08_union c08_intersection c08_difference c08_symdiff c08_union_fold c08_intersection_fold c08_difference_fold c08_symdiff_fold c08_sub c08_difference_ref c08_predicates'),
+    'C08': dict(fams='c08_union c08_intersection c08_difference c08_symdiff c08_union_fold c08_intersection_fold c08_difference_fold c08_symdiff_fold c08_provided c08_sub c08_difference_ref c08_predicates'),
     'C14': dict(fams='c14_map c14_set'),
     'C07': dict(fams='c07u_ops c07_insert c07_replace c07_lookup c07_remove c07_take c07_retain c07_clear c07_drain c07_extend c07_extend_ref'),
     'C09': dict(fams='c09_iter c09_keys c09_values c09_iter_mut c09_values_mut c09_set_iter c09_defaults c09_provided c09_set_provided'),
